@@ -16,6 +16,15 @@ structure MFwd where
   client : Nat
   rq : Bytes           -- the client's packet it was made from
 
+/-- a reply the implementation accepted and queued -/
+structure MDel where
+  client : Nat
+  id : UInt8           -- the client's request identifier
+  rep : Bytes          -- the server's reply as received
+  srv : String
+  rq : Bytes           -- the client's request
+  fwd : Bytes          -- the request as forwarded
+
 structure Mon where
   cfg : CfgAcc := {}
   clientConf : List String := []       -- client k -> conf name
@@ -27,7 +36,7 @@ structure Mon where
   nasAddr : List Bytes := []
   tx : List (String × Bytes × Nat × Nat) := []      -- (server, packet, time of last transmission, transmissions so far)
   now : Nat := 0
-  delivered : List (Nat × UInt8 × Bytes × String) := []   -- (client, its request's identifier, the server's reply, server)
+  queue : List (Nat × Option MDel) := []    -- mirror of the reply queues, oldest first: (client, accepted server reply | local/replayed)
 
 def sections (out : String) : List String := (out.splitOn " | ")
 
@@ -119,6 +128,45 @@ def ttlSkips (tt : Nat × Nat) (rws : List (Option Rewrite.Rewrite)) : Bool :=
   let t : UInt8 := if tt.2 = 256 then UInt8.ofNat tt.1 else 26
   rws.any (rwTouches · t) || (tt.2 = 256 && (tt.1 = 1 || tt.1 = 2 || tt.1 = 60 || tt.1 = 80 || tt.1 = 26 || tt.1 ≥ 256))
 
+def firstOf (t : UInt8) (b : Bytes) : Option Bytes := ((attrsOf b).find? (·.1 = t)).map (·.2)
+
+/-- C01/C03 on a forwarded request: the first User-Password decrypts to the client's plaintext -/
+def userPwdVerdict (cc : World.CliConf) (sc : World.SrvConf) (pkt fwd : Bytes) : String :=
+  if rwTouches cc.rwIn 2 || rwTouches sc.rwOut 2 then "ok" else
+  match firstOf 2 pkt with
+  | none => "ok"
+  | some v =>
+    if !pwdrecryptOk H.md5 v cc.secret sc.secret (authOf pkt) (authOf fwd) [] [] (firstOf 2 fwd) then
+      "bad C01:user-password-not-re-encrypted-to-the-same-plaintext-for-the-server"
+    else "ok"
+
+/-- C03 on a delivered reply: every Tunnel-Password of an Access-Accept and every MS-MPPE key decrypts,
+    for the client, to what the server encrypted -/
+def hiddenVerdict (sc : World.SrvConf) (cc : World.CliConf) (d : MDel) (out : Bytes) : String :=
+  let tun (b : Bytes) := (attrsOf b).filterMap fun (t, v) => if t = 69 then some v else none
+  let ms (b : Bytes) := ((attrsOf b).filterMap fun (t, v) =>
+      if t = 26 && v.length > 4 && v.take 4 == [0, 0, 1, 55] then (subsOf (v.length + 1) (v.drop 4)) else none).flatten.filterMap
+        fun (t, v) => if t = 16 || t = 17 then some v else none
+  let v69 :=
+    if rwTouches sc.rwIn 69 || rwTouches cc.rwOut 69 || codeOf d.rep != 2 || (tun d.rep).length != (tun out).length then "ok"
+    else if ((tun d.rep).zip (tun out)).all fun (v, v') =>
+        v'.take 1 == v.take 1 &&
+        pwdrecryptOk H.md5 (v.drop 3) sc.secret cc.secret (authOf d.fwd) (authOf d.rq) ((v.drop 1).take 2) ((v'.drop 1).take 2) (some (v'.drop 3))
+      then "ok" else "bad C03:tunnel-password-of-delivered-accept-does-not-decrypt-to-the-servers-plaintext"
+  if v69 ≠ "ok" then v69
+  else if rwTouches sc.rwIn 26 || rwTouches cc.rwOut 26 || (ms d.rep).length != (ms out).length then "ok"
+  else if ((ms d.rep).zip (ms out)).all fun (v, v') => msmpprecryptOk H.md5 v sc.secret cc.secret (authOf d.fwd) (authOf d.rq) (some v')
+    then "ok" else "bad C03:ms-mppe-key-of-delivered-reply-does-not-decrypt-to-the-servers-plaintext"
+
+/-- C02: a User-Name the client block's rule rewrote on the way in is set back in the reply -/
+def userNameVerdict (sc : World.SrvConf) (cc : World.CliConf) (d : MDel) (out : Bytes) : String :=
+  if cc.rwUser.isNone || [cc.rwIn, sc.rwOut, sc.rwIn, cc.rwOut].any (rwTouches · 1) then "ok" else
+  match firstOf 1 d.rq, firstOf 1 d.fwd, firstOf 1 d.rep with
+  | some u, some uf, some _ =>
+    if u.contains 0 || u == uf then "ok"
+    else if firstOf 1 out != some u then "bad C02:user-name-not-set-back-to-the-clients-original" else "ok"
+  | _, _, _ => "ok"
+
 /-- attribute types a forwarded request may legitimately differ in from the client's packet (C01) -/
 def touchedReq (m : Mon) (cc : World.CliConf) (sc : World.SrvConf) (t : UInt8) : Bool :=
   rwTouches cc.rwIn t || rwTouches sc.rwOut t ||
@@ -182,11 +230,12 @@ def monOp (m : Mon) (op : String) (args : List String) (impl : List String) : Mo
                  else if codeOf b != codeOf pkt then "bad C01:code-changed"
                  else if !frameOk m cc sc pkt b then "bad C01:untouched-attributes-not-preserved"
                  else if World.loopPrevents m.cfg.opts cc sc then "bad C13:request-forwarded-back-to-the-peer-it-came-from"
+                 else if userPwdVerdict cc sc pkt b ≠ "ok" then userPwdVerdict cc sc pkt b
                  else if ttlSkips m.cfg.opts.ttlType [cc.rwIn, sc.rwOut] then "ok"
                  else ttlVerdict m.cfg.opts.ttlType (World.effAddTtl m.cfg.opts sc.addttl) pkt b "request")
             | [] => "ok"
         let m := { m with recv := (k, pkt) :: m.recv,
-                          delivered := m.delivered.filter fun (j, i, _, _) => !(j = k && i == idOf pkt),
+                          queue := m.queue ++ List.replicate ((ql.getD k 0) - (m.qlen.getD k 0)) (k, none),
                           fwds := (fwdToks.map fun (s, sl, b) => { srv := s, slot := sl, pkt := b, client := k, rq := pkt }) ++ m.fwds }
         (resync m out, verdict)
     | _, _ => (m, "bad-op")
@@ -240,7 +289,7 @@ def monOp (m : Mon) (op : String) (args : List String) (impl : List String) : Mo
              else "ok")
         | _ => "bad C02:delivered-to-several-clients"
       let m := match grown, fwd with
-        | [j], some f => { m with delivered := (j, idOf f.rq, pkt, name) :: m.delivered }
+        | [j], some f => { m with queue := m.queue ++ [(j, some { client := j, id := idOf f.rq, rep := pkt, srv := name, rq := f.rq, fwd := f.pkt })] }
         | _, _ => m
       (resync m out, verdict)
     | _, _ => (m, "bad-op")
@@ -253,7 +302,9 @@ def monOp (m : Mon) (op : String) (args : List String) (impl : List String) : Mo
         let outs := (headToks out).filterMap fun t => match t.splitOn ":" with
           | ["out", h] => ofHex h
           | _ => none
-        let verdict := outs.foldl (fun v b =>
+        let mine := (m.queue.filter (·.1 = k)).map (·.2)
+        let paired : List (Bytes × Option MDel) := if mine.length = outs.length then outs.zip mine else outs.map (·, none)
+        let verdict := paired.foldl (fun v (b, del) =>
           if v ≠ "ok" then v else
           let cands := m.recv.filter fun (j, rq) => j = k && idOf rq == idOf b
           if cands.isEmpty then "bad C02:reply-with-identifier-the-client-never-used"
@@ -261,15 +312,20 @@ def monOp (m : Mon) (op : String) (args : List String) (impl : List String) : Mo
           else if !(cands.any fun (_, rq) => replyOk H cc.secret (authOf rq) b) then "bad C06:reply-malformed-or-not-authenticated-for-this-client"
           else if (codeOf b = 42 || codeOf b = 45) && !((attrsOf b).any fun (t, v) => t = 101 && v == beEnc 4 406) then "bad C05:nak-without-error-cause-406"
           else
-            match m.delivered.find? fun (j, i, _, _) => j = k && i == idOf b with
+            match del with
             | none => "ok"
-            | some (_, _, rep, sname) =>
-              (match srvConfOf m sname with
+            | some d =>
+              (match srvConfOf m d.srv with
                | none => "ok"
                | some sc =>
+                 if idOf b != d.id then "bad C02:delivered-reply-does-not-carry-the-clients-identifier" else
+                 let v1 := hiddenVerdict sc cc d b
+                 if v1 ≠ "ok" then v1 else
+                 let v2 := userNameVerdict sc cc d b
+                 if v2 ≠ "ok" then v2 else
                  if ttlSkips m.cfg.opts.ttlType [sc.rwIn, cc.rwOut] then "ok"
-                 else ttlVerdict m.cfg.opts.ttlType (World.effAddTtl m.cfg.opts cc.addttl) rep b "reply")) "ok"
-        (resync m out, verdict)
+                 else ttlVerdict m.cfg.opts.ttlType (World.effAddTtl m.cfg.opts cc.addttl) d.rep b "reply")) "ok"
+        (resync { m with queue := m.queue.filter (·.1 ≠ k) } out, verdict)
     | none => (m, "bad-op")
   | "rewrite", name :: attrs =>
     -- C01/C06 on the rewriting stage alone: an accepted result never holds a value above 253 octets,
@@ -318,7 +374,7 @@ def monOp (m : Mon) (op : String) (args : List String) (impl : List String) : Mo
   | "srvstate", _ => (resync m out, "ok")
   | "rmclient", [k] =>
     match k.toNat? with
-    | some k => (resync { m with fwds := m.fwds.filter (·.client ≠ k) } out, "ok")
+    | some k => (resync { m with fwds := m.fwds.filter (·.client ≠ k), queue := m.queue.filter (·.1 ≠ k) } out, "ok")
     | none => (m, "bad-op")
   | _, _ => (m, "bad-op")
 
